@@ -63,6 +63,9 @@ func init() {
 	registerExec("hcount", hHcount)
 	registerExec("sum", hSum)
 	registerExec("iter", hIter)
+	registerExec("setu", func(st *State, a []string) string { return withUnhashed(func() string { return hSet(st, a) }) })
+	registerExec("appu", func(st *State, a []string) string { return withUnhashed(func() string { return hApp(st, a) }) })
+	registerExec("chgu", func(st *State, a []string) string { return withUnhashed(func() string { return hChg(st, a) }) })
 	registerExec("obsg", hObsg)
 	registerExec("iterget", hIterGet)
 	registerExec("rehash", hRehash)
@@ -233,6 +236,22 @@ func setElem(hd *handle, i uint64, el view.View) error {
 	return fmt.Errorf("no indexed setter on %T", hd.vw)
 }
 
+// setu / appu / chgu: as set / app / chg, but the inserted value has never been hashed (C06: the
+// result must not depend on which roots were requested before, the inserted value's included)
+var insertUnhashed bool
+
+func withUnhashed(f func() string) string {
+	insertUnhashed = true
+	defer func() { insertUnhashed = false }()
+	return f()
+}
+
+func preHash(el view.View) {
+	if !insertUnhashed {
+		el.HashTreeRoot(tree.Hash) // the inserted value is hashed beforehand (C07 premise)
+	}
+}
+
 func hSet(st *State, a []string) string {
 	hd := st.h(a[0])
 	i, _ := strconv.ParseUint(a[1], 10, 64)
@@ -249,7 +268,7 @@ func hSet(st *State, a []string) string {
 	if err != nil {
 		return "err"
 	}
-	el.HashTreeRoot(tree.Hash) // the inserted value is hashed beforehand (C07 premise)
+	preHash(el)
 	return errStr(setElem(hd, i, el))
 }
 
@@ -269,7 +288,7 @@ func hApp(st *State, a []string) string {
 	if err != nil {
 		return "err"
 	}
-	el.HashTreeRoot(tree.Hash)
+	preHash(el)
 	switch x := hd.vw.(type) {
 	case *view.BasicListView:
 		return errStr(x.Append(el.(view.BasicView)))
@@ -314,7 +333,7 @@ func hChg(st *State, a []string) string {
 	if err != nil {
 		return "err"
 	}
-	el.HashTreeRoot(tree.Hash)
+	preHash(el)
 	return errStr(u.Change(uint8(sel), el))
 }
 
